@@ -315,6 +315,30 @@ impl Check for C16
 			"modules the first-generation parser rejects are discarded and counted (the generator only emits well-formed types)".into(),
 		]
 	}
+	fn judge_bytes(&self, bytes: &[u8]) -> Option<CaseOut>
+	{
+		let mut out = CaseOut::default();
+		if let Ok(src) = std::str::from_utf8(bytes)
+		{
+			compare_trees(src, "any text", &mut out);
+		}
+		Some(out)
+	}
+	fn fuzz_specs(&self, tier: Tier) -> Vec<FuzzSpec>
+	{
+		if tier == Tier::Quick
+		{
+			return Vec::new();
+		}
+		vec![FuzzSpec {
+			target: "fuzz_parsediff",
+			runs_per_job: 200_000,
+			jobs: 14,
+			max_len: 2048,
+			seeds: crate::c15::fuzz_seed_corpus(2048, 150),
+			dictionary: crate::c15::fuzz_dictionary(),
+		}]
+	}
 	fn streams(&self) -> Vec<Box<dyn Stream>>
 	{
 		vec![Box::new(Generated), Box::new(FromPrograms), Box::new(Corpus), Box::new(OperatorPairs)]
